@@ -105,8 +105,8 @@ func (r *R) Violate(sig, detail string, witness any) {
 			return
 		}
 	}
-	if len(detail) > 2000 {
-		detail = detail[:2000] + "…"
+	if len(detail) > 6000 {
+		detail = detail[:6000] + "…"
 	}
 	r.findings = append(r.findings, Finding{Sig: sig, Detail: detail, Witness: witness})
 }
